@@ -28,6 +28,16 @@ theorem at_top_eq (h : HState) (top : Int) :
   unfold HState.atTop Extracted.resetAtTop
   cases h.finished <;> cases h.failure <;> simp
 
+/-- the clock restart after the idle gate, and the final-failure mark -/
+theorem restart_clock_eq (a : StartAtoms) : Extracted.restartsClock a = restartsClock a := rfl
+
+theorem at_start_eq (h : HState) (start : Int) :
+    h.atStart start = if Extracted.restartsClock { anyAttempt := h.retries != 0 } = true then HState.fresh start else h := by
+  unfold HState.atStart Extracted.restartsClock
+  by_cases hr : h.retries = 0 <;> simp [hr]
+
+theorem forever_stopped_eq (a : TopAtoms) : Extracted.marksForeverStopped a = marksForeverStopped a := rfl
+
 /-- `_detect_causes`: when an event resets idling (`reset=` of the spawning cause; `seen` defaults to `new`) -/
 theorem reset_cond_eq (a : ResetAtoms) : Extracted.resetCond a = resetCond a := rfl
 
